@@ -423,6 +423,49 @@ def _names_read_before_written(body):
     return read_first, written
 
 
+# Public methods that only *report* on the state left by the last fit: they may be called any
+# number of times, with any arguments, in any order -- so they must not write to the object
+# (C09: "calling the same object repeatedly with different inputs gives what a fresh object gives";
+# C18: the model / residual images are functions of the fitted rows and the arguments).
+OBSERVERS = [
+    ('photutils/psf/photometry.py', 'PSFPhotometry', ('make_model_image', 'make_residual_image'),
+     ('C09', 'C18')),
+    ('photutils/psf/photometry.py', 'IterativePSFPhotometry',
+     ('make_model_image', 'make_residual_image'), ('C09', 'C18')),
+]
+
+
+def observer_obligations(world, prop):
+    obs = []
+    for rel, cname, meths, props in OBSERVERS:
+        if prop not in props:
+            continue
+        m = world.modules.get(rel)
+        cls = m.classes.get(cname) if m is not None else None
+        for meth in meths:
+            oid = f'effects:{rel}::{cname}.{meth}/observer'
+            fi = world.find_method(cls, meth) if cls is not None else None
+            if fi is None:
+                obs.append(Obligation(oid, prop, 'effects', LOST, detail=f'{cname}.{meth} not found',
+                                      functions=[f'{rel}::{cname}.{meth}']))
+                continue
+            text = (f'{cname}.{meth} writes to no state of the object it is called on (fields and '
+                    'everything reachable from them): repeated calls with different arguments see '
+                    'the same fitted state')
+            bad = [e for e in fi.effects.values() if e.origin.startswith('F:')]
+            fn = [f'{fi.target}#{src_hash(ast.dump(fi.node))}']
+            if bad:
+                e = bad[0]
+                obs.append(Obligation(oid, prop, 'effects', REFUTED, backend='effects', functions=fn,
+                                      text=text, detail=f'in-place write reaching field '
+                                      f'{e.origin[2:]}: {e.desc} ({e.site})',
+                                      model={'origin': e.origin, 'line': e.lineno}))
+            else:
+                obs.append(Obligation(oid, prop, 'effects', DISCHARGED, backend='effects',
+                                      functions=fn, text=text))
+    return obs
+
+
 def schedule_obligations(world, prop):
     """C06: "the output is bit-identical for every nproc and every order in which worker
     processes finish".
@@ -764,4 +807,5 @@ def run(prop, tier):
     obs += loop_obligations(world, prop)
     if prop == 'C06':
         obs += schedule_obligations(world, prop)
+    obs += observer_obligations(world, prop)
     return obs, info
